@@ -644,3 +644,19 @@ define void @f(%S* %p) {
   %g1 = getelementptr %S, %S* %p, i32 0, i32 add (i32 0, i32 1)
   ret void
 }
+;;; ATOM inst/phi-repeated-incoming
+define i32 @f(i32 %x, i32 %a, i32 %b) {
+entry:
+  switch i32 %x, label %other [
+    i32 1, label %join
+    i32 2, label %join
+    i32 3, label %join
+  ]
+other:
+  br label %join
+join:
+  %r = phi i32 [ %a, %entry ], [ %a, %entry ], [ %b, %other ], [ %a, %entry ]
+  %s = phi i32 [ 7, %entry ], [ 7, %entry ], [ %x, %other ], [ 7, %entry ]
+  %t = add i32 %r, %s
+  ret i32 %t
+}
